@@ -26,13 +26,13 @@ PROPS["C10"] = {
     "units": [{
         "pkg": "curve", "configs": ALL4,
         "tests": {
-            "TestC10Decode": T(6000, 600000),
+            "TestC10Decode": T(16000, 1200000),
             "TestC10DecodeList": LIST(),
             "TestC10Lengths": LIST(),
-            "TestC10AnyLen": T(3000, 200000),
-            "TestC10Points": T(3000, 300000),
+            "TestC10AnyLen": T(8000, 400000),
+            "TestC10Points": T(8000, 600000),
             "TestC10TorsionList": LIST(),
-            "TestC10Montgomery": T(4000, 400000),
+            "TestC10Montgomery": T(12000, 800000),
         },
     }],
 }
